@@ -3,6 +3,7 @@ exploration, model extraction, second-solver cross-check."""
 from __future__ import annotations
 
 import itertools
+import os
 import subprocess
 import time
 from fractions import Fraction as Fr
@@ -119,6 +120,11 @@ def mono_axioms(C: Ctx):
             g = z3.And(p.t >= 0, p.t <= PI, q.t >= 0, q.t <= PI)
             ax.append(z3.Implies(g, (p.t < q.t) == (p.c > q.c)))
             ax.append(z3.Implies(g, (p.t == q.t) == (p.c == q.c)))
+        # cosine is even: for a negative angle compare -p with the principal-branch angle
+        for q in by.get("arccos", []):
+            g = z3.And(-p.t >= 0, -p.t <= PI, q.t >= 0, q.t <= PI)
+            ax.append(z3.Implies(g, (-p.t < q.t) == (p.c > q.c)))
+            ax.append(z3.Implies(g, (-p.t == q.t) == (p.c == q.c)))
         for q in by.get("arcsin", []) + [o for o in others if o is not p]:
             g = z3.And(p.t >= -PI / 2, p.t <= PI / 2, q.t >= -PI / 2, q.t <= PI / 2)
             ax.append(z3.Implies(g, (p.t < q.t) == (p.s < q.s)))
@@ -135,24 +141,110 @@ def mono_axioms(C: Ctx):
     return ax
 
 
+def compared_pair_axioms(C: Ctx):
+    """Monotonicity of cos / sin for every pair of angle-valued expressions that the code (or a
+    harness assumption) compared: both sides' (sin, cos) come from the addition formulas."""
+    ax, seen = [], set()
+    old = Ctx.current
+    Ctx.current = C
+    try:
+        for a, b in list(C.mono_pairs):
+            ra, rb = _as_rad(a, b), _as_rad(b, a)
+            if ra is None or rb is None:
+                continue
+            key = (ra.term().get_id(), rb.term().get_id())
+            if key in seen or ra.term().eq(rb.term()):
+                continue
+            seen.add(key)
+            try:
+                (sa, ca), (sb, cb) = core.sincos(ra), core.sincos(rb)
+            except core.Unsupported:
+                continue
+            ta, tb = ra.term(), rb.term()
+            g = z3.And(ta >= 0, ta <= PI, tb >= 0, tb <= PI)
+            ax.append(z3.Implies(g, (ta < tb) == (ca > cb)))
+            ax.append(z3.Implies(g, (ta == tb) == (ca == cb)))
+            g = z3.And(ta >= -PI / 2, ta <= PI / 2, tb >= -PI / 2, tb <= PI / 2)
+            ax.append(z3.Implies(g, (ta < tb) == (sa < sb)))
+            ax.append(z3.Implies(g, (ta == tb) == (sa == sb)))
+    finally:
+        Ctx.current = old
+    return ax
+
+
+def _as_rad(x, other):
+    """radian-valued SV for an angle expression (degrees are converted), None if not an angle"""
+    x = SV.of(x)
+    if x.unit == "deg":
+        if x.rad is None:
+            return None
+        return SV(t=x.rad, A=x.A)
+    if x.t is None:
+        if isinstance(x.c, float):
+            return None
+        o = SV.of(other)
+        if o.unit == "deg":
+            return core.sv_radians(x)
+        if x.c == 0:
+            return x
+        return None  # a bare number compared with a radian angle: no point on the circle known
+    if x.A is None:
+        return None
+    return x
+
+
 def base_constraints(C: Ctx, with_uf=True, with_mono=True):
+    extra = []
+    if with_mono and C.mono_pairs:
+        extra = compared_pair_axioms(C)  # may register circle points: before the facts are copied
     cons = list(C.facts) + list(C.pre) + list(C.pc)
     if with_uf and C.uf:
         cons += uf_axioms(C)
     if with_mono and C.prims:
         cons += mono_axioms(C)
-    return cons
+    return cons + extra
 
 
 def quick_feasible(C: Ctx, lit, timeout_ms):
-    s = mk_solver(timeout_ms)
-    s.add(*base_constraints(C))
-    s.add(lit)
+    """Is context /\\ lit satisfiable?  'unsat' | 'sat' | 'unknown' (lazy, goal-directed)."""
     t = time.time()
-    r = s.check()
-    C.queries += 1
+    allc = base_constraints(C)
+    r = "unknown"
+    if len(allc) > 25:
+        for batch, share in ((1, 0.4), (4, 0.3)):
+            r, _s = lazy_check(allc, z3.Not(lit), timeout_ms * share, C, max_iter=100, batch=batch)
+            if r != "unknown":
+                break
+    if r == "unknown":
+        s = mk_solver(max(500, timeout_ms * 0.3) if len(allc) > 25 else timeout_ms)
+        s.add(*allc)
+        s.add(lit)
+        r = str(s.check())
+        C.queries += 1
     C.solver_time += time.time() - t
-    return str(r)
+    return r
+
+
+def path_feasible(C: Ctx, cons, timeout_ms):
+    """Reachability witness for a path: the path condition together with every constraint
+    connected to it has a model."""
+    if not C.pc:
+        s = mk_solver(timeout_ms)
+        s.add(*cons)
+        return str(s.check())
+    pcs = [p for p in C.pc]
+    rest = [f for f in cons if not any(f is p or f.eq(p) for p in pcs)]
+    goal = z3.Not(z3.And(*pcs)) if len(pcs) > 1 else z3.Not(pcs[0])
+    r = "unknown"
+    for batch, share in ((2, 0.4), (8, 0.3)):
+        r, _s = lazy_check(rest, goal, timeout_ms * share, C, max_iter=150, batch=batch)
+        if r != "unknown":
+            break
+    if r == "unknown":
+        s = mk_solver(timeout_ms * 0.3)
+        s.add(*cons)
+        r = str(s.check())
+    return r
 
 
 class Verdict:
@@ -211,6 +303,23 @@ def vars_of(e):
     return acc
 
 
+def max_fresh(e):
+    """largest index k of a fresh variable name!k occurring in e (0 if none)"""
+    m = 0
+    for n in vars_of(e):
+        if "!" in n:
+            try:
+                m = max(m, int(n.rsplit("!", 1)[1]))
+            except ValueError:
+                pass
+    return m
+
+
+def before(cons, stamp):
+    """constraints that only mention fresh variables created up to `stamp` (program order)"""
+    return [f for f in cons if max_fresh(f) <= stamp]
+
+
 def relevance_levels(cons, goal_terms, max_levels=4):
     """Cone-of-influence layers: constraints sharing variables with the goal, then with those, ..."""
     need = set()
@@ -265,44 +374,97 @@ def narrow_closure(cons, goal_terms, max_new, rounds=6):
     return [f for (f, _v), u in zip(fv, used) if u]
 
 
+def lazy_check(allc, claim, timeout_ms, C=None, max_iter=60, batch=6):
+    """Counterexample-guided constraint selection. Start from the constraints over the goal's
+    own variables; while the negated claim is satisfiable, add constraints that the model
+    violates and that are connected to the variables already in play. `unsat` on a subset is a
+    sound proof; `sat` is only reported when the model satisfies every connected constraint.
+    -> (verdict, solver | None)"""
+    hub = {"pi"}
+    gv = vars_of(claim) - hub
+    fv = [(f, vars_of(f) - hub) for f in allc]
+    inset = [False] * len(fv)
+    cur = set(gv)
+    for i, (f, v) in enumerate(fv):
+        if not v or v <= cur:
+            inset[i] = True
+    t_end = time.time() + timeout_ms / 1000.0
+    for it in range(max_iter):
+        left = t_end - time.time()
+        if left <= 0.2:
+            return "unknown", None
+        s = mk_solver(int(min(left * 1000, max(2000, timeout_ms / 6))))
+        s.add(*[f for (f, _v), u in zip(fv, inset) if u])
+        s.add(z3.Not(claim))
+        try:
+            r = str(s.check())
+        except z3.Z3Exception:
+            r = "unknown"
+        if C is not None:
+            C.queries += 1
+        if os.environ.get("VERIF_DEBUG"):
+            print(f"      lazy it={it} size={sum(inset)}/{len(fv)} -> {r}", flush=True)
+        if r == "unsat":
+            return "unsat", s
+        if r != "sat":
+            return "unknown", None
+        m = s.model()
+        viol = []
+        for i, (f, v) in enumerate(fv):
+            if inset[i] or not (v & cur):
+                continue
+            try:
+                val = m.eval(f, model_completion=True)
+            except z3.Z3Exception:
+                val = None
+            if val is None or not z3.is_true(val):
+                viol.append((len(v - cur), len(v), i))
+        if not viol:
+            return "sat", s
+        viol.sort()
+        for _n, _l, i in viol[:batch]:
+            inset[i] = True
+            cur |= fv[i][1]
+    return "unknown", None
+
+
 def check(C: Ctx, claim, timeout_ms=60000, extra=(), inputs=None, with_uf=True, with_mono=True, cons=None, staged=True):
-    """Is `claim` implied by the context? -> ('unsat'|'sat'|'unknown', time, model dict).
-    Goal-directed: the negated claim is first tried against growing cone-of-influence subsets
-    of the constraints (any `unsat` on a subset is a sound verdict), then against all of them."""
+    """Is `claim` implied by the context? -> ('unsat'|'sat'|'unknown', time, model dict)."""
     if isinstance(claim, SV):
         claim = claim.term()
     allc = list(cons if cons is not None else base_constraints(C, with_uf, with_mono)) + list(extra)
     t = time.time()
-    attempts = []
-    if staged and len(allc) > 40 and not (z3.is_true(claim) or z3.is_false(claim)):
-        seen_sizes = set()
-        for mn in (1, 2, 4):
-            sub = narrow_closure(allc, [claim], mn)
-            if len(sub) < len(allc) and len(sub) not in seen_sizes:
-                seen_sizes.add(len(sub))
-                attempts.append((sub, max(2000, timeout_ms // 10)))
-        lv = relevance_levels(allc, [claim])
-        for sub in lv:
-            if len(sub) >= len(allc):
-                break
-            if len(sub) not in seen_sizes:
-                seen_sizes.add(len(sub))
-                attempts.append((sub, max(2000, timeout_ms // 10)))
-    attempts.append((allc, timeout_ms))
     r, s = "unknown", None
-    for sub, to in attempts:
-        s = mk_solver(to)
-        s.add(*sub)
+    if staged and len(allc) > 25 and not (z3.is_true(claim) or z3.is_false(claim)):
+        # nlsat is very sensitive to irrelevant constraints: grow the subset one constraint at a
+        # time first, then in larger batches
+        for batch, share in ((1, 0.25), (2, 0.2), (6, 0.15)):
+            r, s = lazy_check(allc, claim, timeout_ms * share, C, max_iter=200, batch=batch)
+            if r != "unknown":
+                break
+    if r == "unknown":
+        s = mk_solver(timeout_ms if not staged else max(2000, timeout_ms * 0.4))
+        s.add(*allc)
         s.add(z3.Not(claim))
         try:
             r = str(s.check())
         except z3.Z3Exception:
             r = "unknown"
         C.queries += 1
-        if r == "unsat":
-            break
-        if sub is not allc:
-            r = "unknown"
+    elif r == "sat":
+        # confirm against all constraints (unconnected components included) so that the model is complete
+        s2 = mk_solver(max(2000, timeout_ms * 0.4))
+        s2.add(*allc)
+        s2.add(z3.Not(claim))
+        try:
+            r2 = str(s2.check())
+        except z3.Z3Exception:
+            r2 = "unknown"
+        C.queries += 1
+        if r2 == "unsat":
+            r = "unsat"
+        elif r2 == "sat":
+            s = s2
     dt = time.time() - t
     C.solver_time += dt
     mdl = None
